@@ -96,33 +96,41 @@ def _residual(test, key, pol):
 
 
 def _leaves(stmts, conds, listvar):
-    """[(conds, [appended exprs])] for a straight-line/if-structured block"""
-    paths = [(list(conds), [])]
+    """[(conds, [appended exprs])] for an if-structured loop body; a
+    `continue` ends the path."""
+    paths = [(list(conds), [], False)]
+
+    def step(paths, st):
+        out = []
+        for c, acts, done in paths:
+            if done:
+                out.append((c, acts, True))
+                continue
+            if isinstance(st, ast.If):
+                for body, pol in ((st.body, True), (st.orelse, False)):
+                    sub = [(c + [(st.test, pol)], list(acts), False)]
+                    for s2 in body:
+                        sub = step(sub, s2)
+                    out.extend(sub)
+            elif isinstance(st, ast.Pass):
+                out.append((c, acts, False))
+            elif isinstance(st, ast.Continue):
+                out.append((c, acts, True))
+            elif isinstance(st, ast.Expr) and isinstance(
+                    st.value, ast.Call) and call_name(st.value) == \
+                    f"{listvar}.append" and len(st.value.args) == 1:
+                out.append((c, acts + [st.value.args[0]], False))
+            elif isinstance(st, ast.Expr) and isinstance(
+                    st.value, ast.Constant):
+                out.append((c, acts, False))
+            else:
+                raise Undecided("unrecognised statement in the settings "
+                                f"loop of _hash: {norm(st)[:60]}")
+        return out
+
     for st in stmts:
-        new = []
-        if isinstance(st, ast.If):
-            for c, acts in paths:
-                for (cc, aa) in _leaves(st.body, c + [(st.test, True)],
-                                        listvar):
-                    new.append((cc, acts + aa))
-                for (cc, aa) in _leaves(st.orelse, c + [(st.test, False)],
-                                        listvar):
-                    new.append((cc, acts + aa))
-        elif isinstance(st, ast.Pass):
-            new = paths
-        elif isinstance(st, ast.Expr) and isinstance(st.value, ast.Call) \
-                and call_name(st.value) == f"{listvar}.append" \
-                and len(st.value.args) == 1:
-            new = [(c, acts + [st.value.args[0]]) for c, acts in paths]
-        elif isinstance(st, ast.Expr) and isinstance(st.value, ast.Constant):
-            new = paths
-        elif isinstance(st, ast.Continue):
-            new = paths
-        else:
-            raise Undecided("unrecognised statement in the settings loop of "
-                            f"_hash: {norm(st)[:60]}")
-        paths = new
-    return paths
+        paths = step(paths, st)
+    return [(c, acts) for c, acts, _ in paths]
 
 
 def r1_coverage(ctx):
@@ -150,6 +158,12 @@ def r1_coverage(ctx):
         if isinstance(st, ast.Expr) and isinstance(st.value, ast.Call) and \
                 call_name(st.value) == f"{listvar}.append":
             direct.append(norm(st.value.args[0]))
+        if isinstance(st, ast.Assign) and norm(st.targets[0]) == listvar \
+                and isinstance(st.value, ast.List):
+            direct.extend(norm(e) for e in st.value.elts)
+        if isinstance(st, ast.AugAssign) and norm(st.target) == listvar \
+                and isinstance(st.value, ast.List):
+            direct.extend(norm(e) for e in st.value.elts)
     for want, why in (("self.x_axis", "abscissa data"),
                       ("self.y_axis", "ordinate data"),
                       ("self.fp['preprocessing']", "preprocessing steps"),
@@ -444,11 +458,25 @@ def r4_self_delimiting(ctx):
         raise Undecided("the list branch of obj2bytes does not join")
     for j in js:
         gen = j.args[0] if j.args else None
-        elt = gen.elt if isinstance(gen, (ast.GeneratorExp, ast.ListComp)) \
-            else gen
-        has_len = elt is not None and any(
+        elts = []
+        if isinstance(gen, (ast.GeneratorExp, ast.ListComp)):
+            elts = [gen.elt]
+        elif isinstance(gen, ast.Name):
+            # a list built before: comprehension or loop with append
+            for st in ast.walk(lst):
+                if isinstance(st, ast.Assign) and norm(st.targets[0]) == \
+                        gen.id and isinstance(st.value, (ast.ListComp,
+                                                         ast.GeneratorExp)):
+                    elts.append(st.value.elt)
+                if isinstance(st, ast.Call) and isinstance(
+                        st.func, ast.Attribute) and st.func.attr == "append" \
+                        and norm(st.func.value) == gen.id and st.args:
+                    elts.append(st.args[0])
+        elif gen is not None:
+            elts = [gen]
+        has_len = bool(elts) and all(any(
             isinstance(x, ast.Call) and call_name(x) == "len"
-            for x in ast.walk(elt))
+            for x in ast.walk(e)) for e in elts)
         ctx.check(has_len, j, "list items are length-prefixed",
                   "list items are concatenated without a length prefix: "
                   "different lists encode to the same bytes (e.g. "
